@@ -198,6 +198,10 @@ class SigmaFilter(SigmaRuleBase):
         if isinstance(rule, SigmaCorrelationRule):
             return False
 
+        # A filter that was loaded with (collected) errors is incomplete and can't be applied
+        if self.errors:
+            return False
+
         # Check if logsource matches
         if rule.logsource not in self.logsource:
             return False
